@@ -15,7 +15,7 @@
     bin/check C01 (engine fmt). *)
 From Coq Require Import NArith List Bool.
 From KdV Require Import Fmt.Codec Fmt.CodecProofs Fmt.Rle Fmt.RleProofs
-     Fmt.PfnModel Fmt.BitmapSpec Fmt.DiskdumpModel Fmt.DiskdumpSpec Fmt.DiskdumpProofs.
+     Fmt.PfnModel Fmt.BitmapSpec Fmt.ImageSpec Fmt.DiskdumpModel Fmt.DiskdumpSpec Fmt.DiskdumpProofs.
 Import ListNotations.
 Local Open Scope N_scope.
 
